@@ -5,6 +5,7 @@ import (
 	"fmt"
 	"os"
 	"path/filepath"
+	"regexp"
 	"sort"
 	"strings"
 
@@ -72,6 +73,24 @@ func cmdReplay(args []string) int {
 		return 2
 	}
 	ov[virt] = real
+	if mm := regexp.MustCompile(`^Verif(C[0-9]+|SELF)`).FindStringSubmatch(in.Harness); mm != nil {
+		if props, err := loadProps(verif); err == nil && props[mm[1]] != nil && props[mm[1]].Sched {
+			pc := props[mm[1]]
+			var ipkgs []string
+			for _, rel := range pc.Pkgs {
+				ipkgs = append(ipkgs, sx.ModulePath+"/"+rel)
+			}
+			ipkgs = append(ipkgs, pc.SchedPkgs...)
+			iov, err := sx.InstrumentForSched(w, ipkgs, filepath.Join(work, "sched"))
+			if err != nil {
+				fmt.Fprintln(os.Stderr, "schedule-replay instrumentation failed:", err)
+				return 2
+			}
+			for k, v := range iov {
+				ov[k] = v
+			}
+		}
+	}
 	np := buildNative(work, repo, ov, in.Package)
 	if np.err != nil {
 		fmt.Fprintln(os.Stderr, np.err)
